@@ -195,3 +195,10 @@ Theorem C08_rediff_is_not_reverse : exists x y hs hs',
   diff_hunks x y = Ok hs /\ diff_hunks y x = Ok hs' /\ removed hs' <> added hs.
 Proof. exact rediff_is_not_reverse. Qed.
 Print Assumptions C08_rediff_is_not_reverse.
+
+Theorem C08_cmp_logged_diff_text : forall (expand : bytes -> bytes) env name1 name2 text1 data2 d,
+  do_cmp expand false env name1 name2 text1 data2 = CmpFail d ->
+  patch_text name1 name2 d text1 = Some (cmp_compared expand env data2) /\
+  unpatch_text name1 name2 d (cmp_compared expand env data2) = Some text1.
+Proof. exact cmp_logged_diff_text. Qed.
+Print Assumptions C08_cmp_logged_diff_text.
